@@ -71,8 +71,9 @@ OUT_LOCS = {"x_const": "annassign", "B.battr": "classattr", "B.same": "classattr
             "fout.same": "arg", "fout.q": "arg", "helper.same": "arg",
             # arguments without a default, left of arguments that have one (defaults are right-aligned; kw_defaults hold None)
             "B.bn.lead": "arg", "B.bn.mid": "arg", "B.bn.kreq": "kwarg", "B.bn.kopt": "kwarg", "fnd.p": "arg", "fnd.q": "arg", "fnd.s": "arg"}
-BOGUS_IN = ["nope", "A.nope", "fin.nope", "A.meth.zz.q"]
-BOGUS_OUT = ["nada", "B.nada", "fout.nada", "B.bm.same.x"]
+# the last four of each have an *empty* component (what `"$CLS.$ATTR"` gives when a variable is empty): not an address of anything
+BOGUS_IN = ["nope", "A.nope", "fin.nope", "A.meth.zz.q", "A.", ".", "A..attr1", "fin.farg."]
+BOGUS_OUT = ["nada", "B.nada", "fout.nada", "B.bm.same.x", "B.", ".", "B..battr", "fout.same."]
 WRAP = "Optional[Union[{output_param}, str]]"
 
 
